@@ -14,6 +14,14 @@ BASELINE_OFF = ('cd /repo && env -u ELECTRUMX_VERIF /venv/bin/python -m pytest -
 _IDX_NOTE = ('Trusted: the fake plyvel stand-in (bound to real LevelDB by the conformance run), '
              'the reference indexer; only the default schedule is used here (schedules: C06/C07).')
 CHECKS = {
+    'C13': ('exploration',
+            'exhaustive enumeration of tx shapes x truncation points and of block shapes x every chunk size',
+            'Transaction shapes over every varint-width boundary (counts, script lengths) and extreme '
+            'field values through the real Deserializer/Tx.serialize, hash over exactly the consumed '
+            'bytes, every proper prefix must fail (all prefixes up to 1 KB, field boundaries above); 8 '
+            'block shapes x every chunk size through real OnDiskBlock files, forward and reverse.',
+            'Transactions are built by an independent serializer; truncation of large transactions and '
+            'chunk sizes of the 300-tx block above 3 x tx size are strided (caps reported).', '3/C13'),
     'C05': ('fault_enumeration',
             'crash-point enumeration over the effect log of recorded reorganisations x continuation chains',
             'Natural (depth 1..3) and forced (n = 1..3) reorganisations are recorded; every prefix '
